@@ -312,9 +312,9 @@ def tt_irenumber(
     newsubs = t.subs.astype(int)
     for i, r in enumerate(number_range):
         if isinstance(r, slice):
-            start = r.start or 0
-            stop = r.stop or shape[i]
-            newsubs[:, i] = np.arange(start, stop + 1)[newsubs[:, i]]
+            # Position of the k-th element of the slice: resolved start + k * step
+            start, _, step = r.indices(shape[i])
+            newsubs[:, i] = start + step * newsubs[:, i]
         elif isinstance(r, (int, np.integer)):
             # This appears to be inserting new keys as rows to our subs here
             newsubs = np.insert(newsubs, obj=i, values=r, axis=1)
